@@ -217,11 +217,20 @@ class Deck:
         return None
 
 
+def star_angles(bs):
+    """the angles (degrees) of a starred card; every angle is spelled as one of θ, -θ, 360-θ, θ-360 (same cosine),
+    chosen deterministically from the entry so that a deck renders the same way every time"""
+    out = []
+    for i, c in enumerate(bs):
+        th = math.degrees(math.acos(max(-1.0, min(1.0, c))))
+        k = (i + int(round(th * 7))) % 4
+        out.append([th, -th, 360.0 - th, th - 360.0][k] + 0.0)
+    return out
+
+
 def tr_card(num, m, starred=False):
     if starred:
-        def deg(c):
-            return math.degrees(math.acos(max(-1.0, min(1.0, c))))
-        nums = m.o + [deg(c) for c in m.b]
+        nums = m.o + star_angles(m.b)
         return '*tr%d %s' % (num, ' '.join(fnum(v) for v in nums))
     return 'tr%d %s' % (num, ' '.join(fnum(v) for v in m.nums()))
 
@@ -230,7 +239,7 @@ def inline_tr(m, starred=False):
     if m.is_translation() and not starred:
         return ' '.join(fnum(v) for v in m.o)
     if starred:
-        nums = m.o + [math.degrees(math.acos(max(-1.0, min(1.0, c)))) for c in m.b]
+        nums = m.o + star_angles(m.b)
     else:
         nums = m.nums()
     return ' '.join(fnum(v) for v in nums)
